@@ -353,6 +353,23 @@ def tie_b_scan(res, workdir):
     return ok
 
 
+def failing_theorem(vfile, coqc_output):
+    """Name of the theorem / lemma whose proof script coqc stopped in (the nearest statement above the reported line)."""
+    import re
+    m = re.search(r'File "[^"]*", line (\d+)', coqc_output or '')
+    if not m:
+        return 'unknown (no position reported: time or memory limit)'
+    try:
+        lines = open(vfile).read().splitlines()[:int(m.group(1))]
+    except OSError:
+        return 'unknown'
+    for ln in reversed(lines):
+        mm = re.match(r'\s*(Theorem|Lemma|Example|Corollary)\s+([A-Za-z0-9_\']+)', ln)
+        if mm:
+            return mm.group(2)
+    return 'unknown'
+
+
 def tie_b_generic(res, workdir, key, emit_name, kern, bridge, what):
     """Shared driver of the PySem-based Tie B obligations: translate (fail-closed: unavailable, no alarm), type-check the generated
     file, compile the bridge file against it (failure: broken proof obligation)."""
@@ -386,7 +403,8 @@ def tie_b_generic(res, workdir, key, emit_name, kern, bridge, what):
     else:
         res.notes[note] = 'bridge lemmas FAILED'
         res.violation(f'Tie B: {what} translated from the current source is no longer provably equal to the model',
-                      {'property': res.prop, 'broken': 'coq/bridge/' + bridge, 'coqc_output': out[-2500:]}, 'bridge-' + key, False)
+                      {'property': res.prop, 'broken': 'coq/bridge/' + bridge, 'theorem': failing_theorem(dst, out),
+                       'generated_kernels': kern + ' (regenerated from the working tree by py/vlib/translate_req.py)', 'coqc_output': out[-2500:]}, 'bridge-' + key, False)
     return ok
 
 
